@@ -19,7 +19,8 @@ Op `accept` (trace acceptance):
              {"ev":"route","l":1,"off":1,"incl":[10,10,11]},
              {"ev":"msg","f":10,"l":1,"off":1}, {"ev":"recv","f":10,"t":0,"l":1,"off":1,"flag":true},
              {"ev":"msgdone","f":10,"l":1,"off":1}, {"ev":"apply","f":10,"t":0,"l":1,"off":1,"flag":true},
-             {"ev":"persist","f":10,"t":0}, {"ev":"snapshot","f":10}, {"ev":"stopFollower","f":10},
+             {"ev":"persist","f":10,"t":0,"flag":true},   -- flag: filestore with data (true) / offset file only (false)
+             {"ev":"snapshot","f":10}, {"ev":"stopFollower","f":10},
              {"ev":"restoreSnapshot","f":10}, {"ev":"startFollower","f":10}, {"ev":"cutLink","l":1,"f":10},
              {"ev":"stopLeader","l":1}, {"ev":"startLeader","l":1}]}
   → {"accepted":bool,"rejectedAt":i|null,"event":"…","mismatches":["…"],
@@ -80,7 +81,7 @@ def clParseItem (j : Json) : R ClItem := do
   | "recv" => pure (.ev (.recv (← f) (← t) (← l) (← off) (boolD j "flag" false)) [] none)
   | "msgdone" => pure (.ev (.msgdone (← f) (← l) (← off)) [] none)
   | "apply" => pure (.ev (.apply (← f) (← t) (← l) (← off) (boolD j "flag" false)) [] none)
-  | "persist" => pure (.ev (.persist (← f) (← t)) [] none)
+  | "persist" => pure (.ev (.persist (← f) (← t) (boolD j "flag" true)) [] none)
   | "snapshot" => pure (.ev (.snapshot (← f)) [] none)
   | "stopFollower" => pure (.ev (.stopFollower (← f)) [] none)
   | "restoreSnapshot" => pure (.ev (.restoreSnapshot (← f)) [] none)
@@ -101,13 +102,13 @@ def clInfl (s : State) (f : Nat) (l : Nat) : String :=
 def clWhy (cx : Ctx) (s : State) : Event → String
   | .insert l e => s!"insert: lup={s.lup l} top={top (s.wal l)} off={e.off}"
   | .connect l f => s!"connect: lup={s.lup l} fup={s.fup f} {clInfl s f l}"
-  | .join l f claim => s!"join: lup={s.lup l} reqPending={s.reqPending l f} connected={s.connected l f} {clInfl s f l} claims={cx.tables.map claim} priors={cx.tables.map (fun t => s.prior f t l)}"
+  | .join l f claim => s!"join: lup={s.lup l} reqPending={s.reqPending l f} connected={s.connected l f} {clInfl s f l} claims={cx.tables.map claim} recovered={cx.tables.map (fun t => s.startOff f t l)} priors={cx.tables.map (fun t => s.prior f t l)}"
   | .route l o => s!"route: lup={s.lup l} cursor={s.cursor l} next={(nextEntry (s.wal l) (s.cursor l)).map (·.off)} observed={o}"
   | .msg f l o => s!"msg: fup={s.fup f} linkUp={s.linkUp l f} connected={s.connected l f} queue={s.queue l f} {clInfl s f l} observed={o}"
   | .recv f t l o fwd => s!"recv: {clInfl s f l} prior={s.prior f t l} observed=({t},{l},{o},{fwd})"
   | .msgdone f l _ => s!"msgdone: {clInfl s f l}"
   | .apply f t l o k => s!"apply: fup={s.fup f} pending={s.pending f t l} entry={(entryAt (s.wal l) o).map (·.pt)} wants={(entryAt (s.wal l) o).map (fun e => wants cx t (cx.part f) e.pt)} observed=({o},{k})"
-  | .persist f _ => s!"persist: fup={s.fup f}"
+  | .persist f t d => s!"persist: fup={s.fup f} dirty={s.dirty f t} data={d}"
   | .stopFollower f => s!"stopFollower: fup={s.fup f}"
   | .restoreSnapshot f => s!"restoreSnapshot: fup={s.fup f}"
   | .startFollower f => s!"startFollower: fup={s.fup f}"
